@@ -14,7 +14,7 @@ from ..engine import enum
 
 PID = 'C14'
 TIMEOUT = 20.0
-RULE = ('stat: all label vectors up to length L x 7 functions x 2 output modes; align: all ordered triples of cycle '
+RULE = ('stat: all contiguous-run label vectors up to length L and ALL label vectors over {-1,0,1,2} up to length La (interrupted / out-of-order labels) x 7 functions x 2 output modes; align: all ordered triples of cycle '
         'lengths x 4 quantities x 5 npoints x 4 kinds; bins: all phase sequences over edge/midpoint alphabets; '
         'non-trivial = at least two cycles (stat), cycles of different length (align), an empty and a filled bin (bins)')
 ASSUMPTIONS = ['values are distinct powers of two so sums identify the contributing samples exactly',
@@ -28,8 +28,8 @@ QUANT = ('affine', 'sin', 'cos2', 'sq')
 
 def bounds(tier):
     if tier == 'quick':
-        return {'stat_len': 9, 'bins_len': {2: 6, 3: 5, 4: 4, 6: 3}, 'lengths': LENGTHS[:3]}
-    return {'stat_len': 12, 'bins_len': {2: 8, 3: 6, 4: 5, 6: 4}, 'lengths': LENGTHS}
+        return {'stat_len': 9, 'any_len': 6, 'bins_len': {2: 6, 3: 5, 4: 4, 6: 3}, 'lengths': LENGTHS[:3]}
+    return {'stat_len': 12, 'any_len': 8, 'bins_len': {2: 8, 3: 6, 4: 5, 6: 4}, 'lengths': LENGTHS}
 
 
 def label_vectors(lmax):
@@ -50,9 +50,21 @@ def label_vectors(lmax):
                 yield tuple(v)
 
 
+def any_label_vectors(lmax):
+    """Every vector over {-1, 0, 1, 2} whose non-negative labels are exactly 0..K-1 - labels may be interrupted by
+    gaps or by other labels and need not appear in order ("any labelling")."""
+    for n in range(1, lmax + 1):
+        for v in itertools.product((-1, 0, 1, 2), repeat=n):
+            labs = set(x for x in v if x >= 0)
+            if labs == set(range(len(labs))):
+                yield v
+
+
 def cases(tier, seed):
     b = bounds(tier)
     for v in label_vectors(b['stat_len']):
+        yield ('stat', v, seed)
+    for v in any_label_vectors(b['any_len']):
         yield ('stat', v, seed)
     for nb, lm in b['bins_len'].items():
         for s in enum.sequences(range(2 * nb), 1, lm):
